@@ -550,3 +550,552 @@ Theorem model_is_source_C05_WrapTridiag : forall A : Arith, @SrcEqWrapTridiag.mo
 Proof. intros A. exact SrcEqWrapTridiag.model_is_source_WrapTridiag_lemma. Qed.
 Check model_is_source_C05_WrapTridiag : forall A : Arith, @SrcEqWrapTridiag.model_is_source_WrapTridiag A.
 Print Assumptions model_is_source_C05_WrapTridiag.
+
+(* Proofs/Round2PinThomas.v -- package round2, pin blocks for C05 (append to Props/C05.v).  Compiled copy of the blocks,
+   in the scope context of Props/C05.v (nat_scope open, Reals imported, R_scope not open).
+   ======================================================================================================
+   C05 (tridiagonal solve), rounding half AT BINARY64 -- package round2.
+   Proofs/TridiagRound.v (round one) proves the componentwise backward error of Thomas solve in the STANDARD MODEL of
+   rounding.  The theorems below are about [tsolve (A := AF) t r] itself -- the primitive-float instance the
+   correspondence check runs bit-exactly against the Rust code -- through Flocq's specification of the primitive
+   operations; u64 = 2^-53, eta64 = 2^-1075, FR = real value of a float, ffinite = "is a finite float".
+   Trace functions (float expressions in the data, Proofs/Round2Thomas.v):
+     tbeta t k    the pivots        beta_0 = main_0,  beta_k = main_k - sub_(k-1) * gamma_k
+     tgamma t k   the multipliers   gamma_k = sup_(k-1) / beta_(k-1)            (gamma_0 = 0)
+     tnum t r k   the numerators    num_0 = r_0,  num_k = r_k - sub_(k-1) * y_(k-1)
+     ty t r k     the forward sweep y_k = num_k / beta_k
+   no_underflow v  :=  v = 0 \/ 2^-1022 <= |v|   (the exact product/quotient is not in the subnormal range).
+   Ladder of results (every one for EVERY size n):
+     thomas_backward_error_float             finite answer + finite pivots + no subnormal product/quotient -> exact row-wise
+                                             perturbed system (3u,5u,5u,9u), any matrix
+     thomas_dominant_backward_stable_float   the same for dominant matrices: |dT| <= (3u|a|, 5u|b|+9u|a|, 5u|c|)
+     thomas_dominant_float_partial           dominant + entries scaled (|b|<=2^300, off-diagonals 0 or >=2^-300): never refused for
+                                             ANY right-hand side; pivot/multiplier conditions discharged from the data
+     thomas_backward_error_float_uf          gradual underflow allowed in the right-hand-side part: residual r_i + dr_i,
+                                             |dr_i| <= 2^-1075 (1 + 2|a_i| + 3|beta_i|)
+     thomas_dominant_float_uf_partial        dominant + scaled: finite answer -> backward stable up to |dr_i| <= 2^-1075 (1 + 11|b_i|)
+     thomas_dominant_float_residual          the same conclusion as a row-wise residual bound (the quantity the oracle measures)
+     thomas_dominant_float                   hypotheses ON THE DATA ONLY (entries finite, 2^-300 <= |b_i| <= 2^300, off-diagonals 0 or
+                                             >= 2^-300, |r_i| <= 2^300, 2(|a_i|+|c_i|) <= |b_i|): solved, every x_i finite, backward stable
+                                             up to 2^-1075 (1 + 11|b_i|) per row -- no overflow anywhere, underflow accounted for
+   Unproved remainder: underflow in the MATRIX part (pivots/multipliers) is excluded (by hypothesis or by the scaling bounds), not
+   analysed; for merely dominant systems (margin (1+u)/(1-u) instead of the factor 2) finiteness of the answer is a hypothesis.
+   ====================================================================================================== *)
+From Coq Require Import List Arith Bool ZArith QArith Qcanon Floats.
+Local Open Scope nat_scope.
+From OV Require Import Base.Panic Base.Arith Model.Vector Model.Matrix Model.Tridiag Inst.QcInst Inst.FloatInst Proofs.Tridiag Proofs.TridiagSolve Proofs.TridiagDet Proofs.TridiagTotal.
+Import ListNotations.
+From Coq Require Import Reals Lra.
+From OV Require Import Proofs.TridiagTrace Proofs.TridiagRound.
+(* ---- the blocks start here ---- *)
+From Flocq Require Import Core.
+From OV Require Import Proofs.ComplexRound Proofs.RoundDotFloat Proofs.Round2Thomas Proofs.Round2ThomasB.
+
+(* Thomas solve at binary64, componentwise backward error: whenever solve answers x, every x_i and every pivot is finite and
+   no product/quotient of the two sweeps is subnormal, the real values of x solve a nearby tridiagonal system EXACTLY, row by
+   row:  a_i (1+ea) x_(i-1) + ( b_i (1+eb) + a_i gamma_i eg ) x_i + c_i (1+ec) x_(i+1) = r_i ,
+   |ea| <= 3u, |eb| <= 5u, |ec| <= 5u, |eg| <= 9u, u = 2^-53.  A finite answer alone does not suffice (see
+   thomas_finite_answer_hides_overflow_example below): the pivots must be finite. *)
+Theorem thomas_backward_error_float : forall (t : tridiag AF) (r x : list pfloat),
+  wfT t -> (1 <= tn t)%nat -> length r = tn t -> tsolve (A := AF) t r = Ok x ->
+  (forall i, (i < tn t)%nat -> ffinite (nth i x 0%float)) ->
+  (forall k, (k < tn t)%nat -> ffinite (tbeta t k)) ->
+  (forall k, (k + 1 < tn t)%nat ->
+     no_underflow (FR (nth k (tsup t) 0%float) / FR (tbeta t k))%R /\
+     no_underflow (FR (nth k (tsub t) 0%float) * FR (tgamma t (k + 1)))%R) ->
+  ((forall k, (k < tn t)%nat -> no_underflow (FR (tnum t r k) / FR (tbeta t k))%R) /\
+  (forall k, (k + 1 < tn t)%nat ->
+     no_underflow (FR (nth k (tsub t) 0%float) * FR (ty t r k))%R /\
+     no_underflow (FR (tgamma t (k + 1)) * FR (nth (k + 1) x 0%float))%R)) ->
+  length x = tn t /\
+  forall i, (i < tn t)%nat -> exists ea eb ec eg : R,
+    (Rabs ea <= 3 * u64 /\ Rabs eb <= 5 * u64 /\ Rabs ec <= 5 * u64 /\ Rabs eg <= 9 * u64 /\
+     FR (nth i (0%float :: tsub t) 0%float) * (1 + ea) * FR (nth i (0%float :: x) 0%float)
+     + (FR (nth i (tmain t) 0%float) * (1 + eb)
+        + FR (nth i (0%float :: tsub t) 0%float) * FR (tgamma t i) * eg) * FR (nth i x 0%float)
+     + FR (nth i (tsup t) 0%float) * (1 + ec) * FR (nth (i + 1) x 0%float) = FR (nth i r 0%float))%R.
+Proof. intros t r x. exact (thomas_backward_error_float_lemma t r x). Qed.
+Check thomas_backward_error_float : forall (t : tridiag AF) (r x : list pfloat),
+  wfT t -> (1 <= tn t)%nat -> length r = tn t -> tsolve (A := AF) t r = Ok x ->
+  (forall i, (i < tn t)%nat -> ffinite (nth i x 0%float)) ->
+  (forall k, (k < tn t)%nat -> ffinite (tbeta t k)) ->
+  (forall k, (k + 1 < tn t)%nat ->
+     no_underflow (FR (nth k (tsup t) 0%float) / FR (tbeta t k))%R /\
+     no_underflow (FR (nth k (tsub t) 0%float) * FR (tgamma t (k + 1)))%R) ->
+  ((forall k, (k < tn t)%nat -> no_underflow (FR (tnum t r k) / FR (tbeta t k))%R) /\
+  (forall k, (k + 1 < tn t)%nat ->
+     no_underflow (FR (nth k (tsub t) 0%float) * FR (ty t r k))%R /\
+     no_underflow (FR (tgamma t (k + 1)) * FR (nth (k + 1) x 0%float))%R)) ->
+  length x = tn t /\
+  forall i, (i < tn t)%nat -> exists ea eb ec eg : R,
+    (Rabs ea <= 3 * u64 /\ Rabs eb <= 5 * u64 /\ Rabs ec <= 5 * u64 /\ Rabs eg <= 9 * u64 /\
+     FR (nth i (0%float :: tsub t) 0%float) * (1 + ea) * FR (nth i (0%float :: x) 0%float)
+     + (FR (nth i (tmain t) 0%float) * (1 + eb)
+        + FR (nth i (0%float :: tsub t) 0%float) * FR (tgamma t i) * eg) * FR (nth i x 0%float)
+     + FR (nth i (tsup t) 0%float) * (1 + ec) * FR (nth (i + 1) x 0%float) = FR (nth i r 0%float))%R.
+Print Assumptions thomas_backward_error_float.
+(* [[4,1,0],[1,4,1],[0,1,4]] x = [1,2,3] at binary64 (gamma_2 = 1/3.75, y_1 = 1.75/3.75, ... are inexact) *)
+Example thomas_backward_error_float_nonvacuous :
+  let t := exT_t in let r := exT_r in let x := exT_x in
+  wfT t /\ (1 <= tn t)%nat /\ length r = tn t /\ tsolve (A := AF) t r = Ok x /\
+  (forall i, (i < tn t)%nat -> ffinite (nth i x 0%float)) /\
+  (forall k, (k < tn t)%nat -> ffinite (tbeta t k)) /\
+  (forall k, (k + 1 < tn t)%nat ->
+     no_underflow (FR (nth k (tsup t) 0%float) / FR (tbeta t k))%R /\
+     no_underflow (FR (nth k (tsub t) 0%float) * FR (tgamma t (k + 1)))%R) /\
+  (forall k, (k < tn t)%nat -> no_underflow (FR (tnum t r k) / FR (tbeta t k))%R) /\
+  (forall k, (k + 1 < tn t)%nat ->
+     no_underflow (FR (nth k (tsub t) 0%float) * FR (ty t r k))%R /\
+     no_underflow (FR (tgamma t (k + 1)) * FR (nth (k + 1) x 0%float))%R).
+Proof.
+  cbv zeta. destruct exT_conditions as (W & Hn & Hr & Fx & Fb & UM & UQ & UR).
+  split; [exact W|]. split; [exact Hn|]. split; [exact Hr|]. split; [exact exT_solve|]. split; [exact Fx|].
+  split; [exact Fb|]. split; [exact UM|]. split; [exact UQ|exact UR].
+Qed.
+
+(* the same for strictly diagonally dominant systems (margin (1+u)/(1-u)): backward stability at binary64,
+   (T + dT) x = r with |da_i| <= 3u |a_i|, |db_i| <= 5u |b_i| + 9u |a_i|, |dc_i| <= 5u |c_i| *)
+Theorem thomas_dominant_backward_stable_float : forall (t : tridiag AF) (r x : list pfloat),
+  wfT t -> (1 <= tn t)%nat -> length r = tn t ->
+  (forall i, (i < tn t)%nat ->
+     ((Rabs (FR (nth i (0%float :: tsub t) 0%float)) + Rabs (FR (nth i (tsup t) 0%float))) * (1 + u64)
+      < Rabs (FR (nth i (tmain t) 0%float)) * (1 - u64))%R) ->
+  tsolve (A := AF) t r = Ok x ->
+  (forall i, (i < tn t)%nat -> ffinite (nth i x 0%float)) ->
+  (forall k, (k < tn t)%nat -> ffinite (tbeta t k)) ->
+  (forall k, (k + 1 < tn t)%nat ->
+     no_underflow (FR (nth k (tsup t) 0%float) / FR (tbeta t k))%R /\
+     no_underflow (FR (nth k (tsub t) 0%float) * FR (tgamma t (k + 1)))%R) ->
+  ((forall k, (k < tn t)%nat -> no_underflow (FR (tnum t r k) / FR (tbeta t k))%R) /\
+  (forall k, (k + 1 < tn t)%nat ->
+     no_underflow (FR (nth k (tsub t) 0%float) * FR (ty t r k))%R /\
+     no_underflow (FR (tgamma t (k + 1)) * FR (nth (k + 1) x 0%float))%R)) ->
+  length x = tn t /\
+  forall i, (i < tn t)%nat -> exists da db dc : R,
+    (Rabs da <= 3 * u64 * Rabs (FR (nth i (0%float :: tsub t) 0%float)) /\
+     Rabs db <= 5 * u64 * Rabs (FR (nth i (tmain t) 0%float)) + 9 * u64 * Rabs (FR (nth i (0%float :: tsub t) 0%float)) /\
+     Rabs dc <= 5 * u64 * Rabs (FR (nth i (tsup t) 0%float)) /\
+     (FR (nth i (0%float :: tsub t) 0%float) + da) * FR (nth i (0%float :: x) 0%float)
+     + (FR (nth i (tmain t) 0%float) + db) * FR (nth i x 0%float)
+     + (FR (nth i (tsup t) 0%float) + dc) * FR (nth (i + 1) x 0%float) = FR (nth i r 0%float))%R.
+Proof. intros t r x. exact (thomas_dominant_backward_stable_float_lemma t r x). Qed.
+Check thomas_dominant_backward_stable_float : forall (t : tridiag AF) (r x : list pfloat),
+  wfT t -> (1 <= tn t)%nat -> length r = tn t ->
+  (forall i, (i < tn t)%nat ->
+     ((Rabs (FR (nth i (0%float :: tsub t) 0%float)) + Rabs (FR (nth i (tsup t) 0%float))) * (1 + u64)
+      < Rabs (FR (nth i (tmain t) 0%float)) * (1 - u64))%R) ->
+  tsolve (A := AF) t r = Ok x ->
+  (forall i, (i < tn t)%nat -> ffinite (nth i x 0%float)) ->
+  (forall k, (k < tn t)%nat -> ffinite (tbeta t k)) ->
+  (forall k, (k + 1 < tn t)%nat ->
+     no_underflow (FR (nth k (tsup t) 0%float) / FR (tbeta t k))%R /\
+     no_underflow (FR (nth k (tsub t) 0%float) * FR (tgamma t (k + 1)))%R) ->
+  ((forall k, (k < tn t)%nat -> no_underflow (FR (tnum t r k) / FR (tbeta t k))%R) /\
+  (forall k, (k + 1 < tn t)%nat ->
+     no_underflow (FR (nth k (tsub t) 0%float) * FR (ty t r k))%R /\
+     no_underflow (FR (tgamma t (k + 1)) * FR (nth (k + 1) x 0%float))%R)) ->
+  length x = tn t /\
+  forall i, (i < tn t)%nat -> exists da db dc : R,
+    (Rabs da <= 3 * u64 * Rabs (FR (nth i (0%float :: tsub t) 0%float)) /\
+     Rabs db <= 5 * u64 * Rabs (FR (nth i (tmain t) 0%float)) + 9 * u64 * Rabs (FR (nth i (0%float :: tsub t) 0%float)) /\
+     Rabs dc <= 5 * u64 * Rabs (FR (nth i (tsup t) 0%float)) /\
+     (FR (nth i (0%float :: tsub t) 0%float) + da) * FR (nth i (0%float :: x) 0%float)
+     + (FR (nth i (tmain t) 0%float) + db) * FR (nth i x 0%float)
+     + (FR (nth i (tsup t) 0%float) + dc) * FR (nth (i + 1) x 0%float) = FR (nth i r 0%float))%R.
+Print Assumptions thomas_dominant_backward_stable_float.
+Example thomas_dominant_backward_stable_float_nonvacuous :
+  let t := exT_t in let r := exT_r in let x := exT_x in
+  wfT t /\ (1 <= tn t)%nat /\ length r = tn t /\
+  (forall i, (i < tn t)%nat ->
+     ((Rabs (FR (nth i (0%float :: tsub t) 0%float)) + Rabs (FR (nth i (tsup t) 0%float))) * (1 + u64)
+      < Rabs (FR (nth i (tmain t) 0%float)) * (1 - u64))%R) /\
+  tsolve (A := AF) t r = Ok x /\
+  (forall i, (i < tn t)%nat -> ffinite (nth i x 0%float)) /\
+  (forall k, (k < tn t)%nat -> ffinite (tbeta t k)) /\
+  (forall k, (k + 1 < tn t)%nat ->
+     no_underflow (FR (nth k (tsup t) 0%float) / FR (tbeta t k))%R /\
+     no_underflow (FR (nth k (tsub t) 0%float) * FR (tgamma t (k + 1)))%R) /\
+  (forall k, (k < tn t)%nat -> no_underflow (FR (tnum t r k) / FR (tbeta t k))%R) /\
+  (forall k, (k + 1 < tn t)%nat ->
+     no_underflow (FR (nth k (tsub t) 0%float) * FR (ty t r k))%R /\
+     no_underflow (FR (tgamma t (k + 1)) * FR (nth (k + 1) x 0%float))%R).
+Proof.
+  cbv zeta. destruct exT_conditions as (W & Hn & Hr & Fx & Fb & UM & UQ & UR). destruct exT_data as (_ & _ & D).
+  split; [exact W|]. split; [exact Hn|]. split; [exact Hr|]. split; [exact D|]. split; [exact exT_solve|].
+  split; [exact Fx|]. split; [exact Fb|]. split; [exact UM|]. split; [exact UQ|exact UR].
+Qed.
+
+(* hypotheses ON THE DATA for the matrix part: all entries finite, |main_i| <= 2^300, every off-diagonal entry zero or at least
+   2^-300 in magnitude, strict diagonal dominance with the rounding margin.  Then, for EVERY right-hand side (of any size n):
+   no pivot and no multiplier overflows or underflows, solve never refuses, and if the answer is finite and no product/quotient
+   of the right-hand-side part is subnormal, the answer is backward stable.
+   PARTIAL (full statement: hypotheses on the data only, conclusion "solved, finite, backward stable"): finiteness of the answer and
+   absence of underflow in the right-hand-side part remain hypotheses here; thomas_dominant_float below is the full statement for
+   matrices dominant by the factor 2, thomas_dominant_float_uf_partial removes the underflow hypothesis for this class. *)
+Theorem thomas_dominant_float_partial : forall (t : tridiag AF) (r : list pfloat),
+  wfT t -> (1 <= tn t)%nat -> length r = tn t ->
+  ((forall i, (i < tn t)%nat -> ffinite (nth i (tmain t) 0%float)) /\
+   (forall i, (i + 1 < tn t)%nat -> ffinite (nth i (tsub t) 0%float) /\ ffinite (nth i (tsup t) 0%float))) ->
+  ((forall i, (i < tn t)%nat -> (Rabs (FR (nth i (tmain t) 0%float)) <= bpow radix2 300)%R) /\
+   (forall i, (i + 1 < tn t)%nat ->
+      (FR (nth i (tsub t) 0%float) = 0%R \/ (bpow radix2 (-300) <= Rabs (FR (nth i (tsub t) 0%float)))%R) /\
+      (FR (nth i (tsup t) 0%float) = 0%R \/ (bpow radix2 (-300) <= Rabs (FR (nth i (tsup t) 0%float)))%R))) ->
+  (forall i, (i < tn t)%nat ->
+     ((Rabs (FR (nth i (0%float :: tsub t) 0%float)) + Rabs (FR (nth i (tsup t) 0%float))) * (1 + u64)
+      < Rabs (FR (nth i (tmain t) 0%float)) * (1 - u64))%R) ->
+  exists x, tsolve (A := AF) t r = Ok x /\ length x = tn t /\
+    ((forall i, (i < tn t)%nat -> ffinite (nth i x 0%float)) ->
+  ((forall k, (k < tn t)%nat -> no_underflow (FR (tnum t r k) / FR (tbeta t k))%R) /\
+  (forall k, (k + 1 < tn t)%nat ->
+     no_underflow (FR (nth k (tsub t) 0%float) * FR (ty t r k))%R /\
+     no_underflow (FR (tgamma t (k + 1)) * FR (nth (k + 1) x 0%float))%R)) ->
+  forall i, (i < tn t)%nat -> exists da db dc : R,
+    (Rabs da <= 3 * u64 * Rabs (FR (nth i (0%float :: tsub t) 0%float)) /\
+     Rabs db <= 5 * u64 * Rabs (FR (nth i (tmain t) 0%float)) + 9 * u64 * Rabs (FR (nth i (0%float :: tsub t) 0%float)) /\
+     Rabs dc <= 5 * u64 * Rabs (FR (nth i (tsup t) 0%float)) /\
+     (FR (nth i (0%float :: tsub t) 0%float) + da) * FR (nth i (0%float :: x) 0%float)
+     + (FR (nth i (tmain t) 0%float) + db) * FR (nth i x 0%float)
+     + (FR (nth i (tsup t) 0%float) + dc) * FR (nth (i + 1) x 0%float) = FR (nth i r 0%float))%R).
+Proof. intros t r. exact (thomas_dominant_float_partial_lemma t r). Qed.
+Check thomas_dominant_float_partial : forall (t : tridiag AF) (r : list pfloat),
+  wfT t -> (1 <= tn t)%nat -> length r = tn t ->
+  ((forall i, (i < tn t)%nat -> ffinite (nth i (tmain t) 0%float)) /\
+   (forall i, (i + 1 < tn t)%nat -> ffinite (nth i (tsub t) 0%float) /\ ffinite (nth i (tsup t) 0%float))) ->
+  ((forall i, (i < tn t)%nat -> (Rabs (FR (nth i (tmain t) 0%float)) <= bpow radix2 300)%R) /\
+   (forall i, (i + 1 < tn t)%nat ->
+      (FR (nth i (tsub t) 0%float) = 0%R \/ (bpow radix2 (-300) <= Rabs (FR (nth i (tsub t) 0%float)))%R) /\
+      (FR (nth i (tsup t) 0%float) = 0%R \/ (bpow radix2 (-300) <= Rabs (FR (nth i (tsup t) 0%float)))%R))) ->
+  (forall i, (i < tn t)%nat ->
+     ((Rabs (FR (nth i (0%float :: tsub t) 0%float)) + Rabs (FR (nth i (tsup t) 0%float))) * (1 + u64)
+      < Rabs (FR (nth i (tmain t) 0%float)) * (1 - u64))%R) ->
+  exists x, tsolve (A := AF) t r = Ok x /\ length x = tn t /\
+    ((forall i, (i < tn t)%nat -> ffinite (nth i x 0%float)) ->
+  ((forall k, (k < tn t)%nat -> no_underflow (FR (tnum t r k) / FR (tbeta t k))%R) /\
+  (forall k, (k + 1 < tn t)%nat ->
+     no_underflow (FR (nth k (tsub t) 0%float) * FR (ty t r k))%R /\
+     no_underflow (FR (tgamma t (k + 1)) * FR (nth (k + 1) x 0%float))%R)) ->
+  forall i, (i < tn t)%nat -> exists da db dc : R,
+    (Rabs da <= 3 * u64 * Rabs (FR (nth i (0%float :: tsub t) 0%float)) /\
+     Rabs db <= 5 * u64 * Rabs (FR (nth i (tmain t) 0%float)) + 9 * u64 * Rabs (FR (nth i (0%float :: tsub t) 0%float)) /\
+     Rabs dc <= 5 * u64 * Rabs (FR (nth i (tsup t) 0%float)) /\
+     (FR (nth i (0%float :: tsub t) 0%float) + da) * FR (nth i (0%float :: x) 0%float)
+     + (FR (nth i (tmain t) 0%float) + db) * FR (nth i x 0%float)
+     + (FR (nth i (tsup t) 0%float) + dc) * FR (nth (i + 1) x 0%float) = FR (nth i r 0%float))%R).
+Print Assumptions thomas_dominant_float_partial.
+Example thomas_dominant_float_partial_nonvacuous :
+  let t := exT_t in let r := exT_r in let x := exT_x in
+  wfT t /\ (1 <= tn t)%nat /\ length r = tn t /\
+  ((forall i, (i < tn t)%nat -> ffinite (nth i (tmain t) 0%float)) /\
+   (forall i, (i + 1 < tn t)%nat -> ffinite (nth i (tsub t) 0%float) /\ ffinite (nth i (tsup t) 0%float))) /\
+  ((forall i, (i < tn t)%nat -> (Rabs (FR (nth i (tmain t) 0%float)) <= bpow radix2 300)%R) /\
+   (forall i, (i + 1 < tn t)%nat ->
+      (FR (nth i (tsub t) 0%float) = 0%R \/ (bpow radix2 (-300) <= Rabs (FR (nth i (tsub t) 0%float)))%R) /\
+      (FR (nth i (tsup t) 0%float) = 0%R \/ (bpow radix2 (-300) <= Rabs (FR (nth i (tsup t) 0%float)))%R))) /\
+  (forall i, (i < tn t)%nat ->
+     ((Rabs (FR (nth i (0%float :: tsub t) 0%float)) + Rabs (FR (nth i (tsup t) 0%float))) * (1 + u64)
+      < Rabs (FR (nth i (tmain t) 0%float)) * (1 - u64))%R) /\
+  tsolve (A := AF) t r = Ok x /\
+  (forall i, (i < tn t)%nat -> ffinite (nth i x 0%float)) /\
+  (forall k, (k < tn t)%nat -> no_underflow (FR (tnum t r k) / FR (tbeta t k))%R) /\
+  (forall k, (k + 1 < tn t)%nat ->
+     no_underflow (FR (nth k (tsub t) 0%float) * FR (ty t r k))%R /\
+     no_underflow (FR (tgamma t (k + 1)) * FR (nth (k + 1) x 0%float))%R).
+Proof.
+  cbv zeta. destruct exT_conditions as (W & Hn & Hr & Fx & Fb & UM & UQ & UR). destruct exT_data as (HF & HS & D).
+  split; [exact W|]. split; [exact Hn|]. split; [exact Hr|]. split; [exact HF|]. split; [exact HS|]. split; [exact D|].
+  split; [exact exT_solve|]. split; [exact Fx|]. split; [exact UQ|exact UR].
+Qed.
+
+(* gradual underflow allowed in the right-hand-side part (products sub*y, gamma*x and quotients num/beta may be subnormal or
+   flush to zero): IEEE rounding obeys fl(v) = v(1+d) + e, |e| <= 2^-1075, and the row equations hold up to an ABSOLUTE residual
+   |dr_i| <= 2^-1075 (1 + 2|a_i| + 3|beta_i|).  Only the matrix part must be free of underflow. *)
+Theorem thomas_backward_error_float_uf : forall (t : tridiag AF) (r x : list pfloat),
+  wfT t -> (1 <= tn t)%nat -> length r = tn t -> tsolve (A := AF) t r = Ok x ->
+  (forall i, (i < tn t)%nat -> ffinite (nth i x 0%float)) ->
+  (forall k, (k < tn t)%nat -> ffinite (tbeta t k)) ->
+  (forall k, (k + 1 < tn t)%nat ->
+     no_underflow (FR (nth k (tsup t) 0%float) / FR (tbeta t k))%R /\
+     no_underflow (FR (nth k (tsub t) 0%float) * FR (tgamma t (k + 1)))%R) ->
+  length x = tn t /\
+  forall i, (i < tn t)%nat -> exists ea eb ec eg dr : R,
+    (Rabs ea <= 3 * u64 /\ Rabs eb <= 5 * u64 /\ Rabs ec <= 5 * u64 /\ Rabs eg <= 9 * u64 /\
+     Rabs dr <= eta64 * (1 + 2 * Rabs (FR (nth i (0%float :: tsub t) 0%float)) + 3 * Rabs (FR (tbeta t i))) /\
+     FR (nth i (0%float :: tsub t) 0%float) * (1 + ea) * FR (nth i (0%float :: x) 0%float)
+     + (FR (nth i (tmain t) 0%float) * (1 + eb)
+        + FR (nth i (0%float :: tsub t) 0%float) * FR (tgamma t i) * eg) * FR (nth i x 0%float)
+     + FR (nth i (tsup t) 0%float) * (1 + ec) * FR (nth (i + 1) x 0%float) = FR (nth i r 0%float) + dr)%R.
+Proof. intros t r x. exact (thomas_backward_error_float_uf_lemma t r x). Qed.
+Check thomas_backward_error_float_uf : forall (t : tridiag AF) (r x : list pfloat),
+  wfT t -> (1 <= tn t)%nat -> length r = tn t -> tsolve (A := AF) t r = Ok x ->
+  (forall i, (i < tn t)%nat -> ffinite (nth i x 0%float)) ->
+  (forall k, (k < tn t)%nat -> ffinite (tbeta t k)) ->
+  (forall k, (k + 1 < tn t)%nat ->
+     no_underflow (FR (nth k (tsup t) 0%float) / FR (tbeta t k))%R /\
+     no_underflow (FR (nth k (tsub t) 0%float) * FR (tgamma t (k + 1)))%R) ->
+  length x = tn t /\
+  forall i, (i < tn t)%nat -> exists ea eb ec eg dr : R,
+    (Rabs ea <= 3 * u64 /\ Rabs eb <= 5 * u64 /\ Rabs ec <= 5 * u64 /\ Rabs eg <= 9 * u64 /\
+     Rabs dr <= eta64 * (1 + 2 * Rabs (FR (nth i (0%float :: tsub t) 0%float)) + 3 * Rabs (FR (tbeta t i))) /\
+     FR (nth i (0%float :: tsub t) 0%float) * (1 + ea) * FR (nth i (0%float :: x) 0%float)
+     + (FR (nth i (tmain t) 0%float) * (1 + eb)
+        + FR (nth i (0%float :: tsub t) 0%float) * FR (tgamma t i) * eg) * FR (nth i x 0%float)
+     + FR (nth i (tsup t) 0%float) * (1 + ec) * FR (nth (i + 1) x 0%float) = FR (nth i r 0%float) + dr)%R.
+Print Assumptions thomas_backward_error_float_uf.
+(* the same matrix with r = [2^-1060; 0; 0]: y_0 = 2^-1062 and sub_0 * y_0 is subnormal (last conjunct), all hypotheses hold *)
+Example thomas_backward_error_float_uf_nonvacuous :
+  let t := exT_t in let r := exU_r in let x := exU_x in
+  wfT t /\ (1 <= tn t)%nat /\ length r = tn t /\ tsolve (A := AF) t r = Ok x /\
+  (forall i, (i < tn t)%nat -> ffinite (nth i x 0%float)) /\
+  (forall k, (k < tn t)%nat -> ffinite (tbeta t k)) /\
+  (forall k, (k + 1 < tn t)%nat ->
+     no_underflow (FR (nth k (tsup t) 0%float) / FR (tbeta t k))%R /\
+     no_underflow (FR (nth k (tsub t) 0%float) * FR (tgamma t (k + 1)))%R) /\
+  ~ no_underflow (FR (nth 0 (tsub t) 0%float) * FR (ty t r 0))%R.
+Proof.
+  cbv zeta. destruct exT_conditions as (W & Hn & _ & _ & Fb & UM & _).
+  split; [exact W|]. split; [exact Hn|]. split; [reflexivity|]. split; [exact exU_solve|]. split; [exact exU_finite|].
+  split; [exact Fb|]. split; [exact UM|exact (proj2 exU_underflows)].
+Qed.
+
+(* dominant + scaled matrices (hypotheses on the data as in thomas_dominant_float_partial): a finite answer is backward stable up to the
+   absolute residual |dr_i| <= 2^-1075 (1 + 11 |b_i|) -- no condition on the right-hand-side part of the computation is left.
+   PARTIAL: finiteness of the answer remains a hypothesis (for the margin (1+u)/(1-u) the computed x is not bounded by the data). *)
+Theorem thomas_dominant_float_uf_partial : forall (t : tridiag AF) (r : list pfloat),
+  wfT t -> (1 <= tn t)%nat -> length r = tn t ->
+  ((forall i, (i < tn t)%nat -> ffinite (nth i (tmain t) 0%float)) /\
+   (forall i, (i + 1 < tn t)%nat -> ffinite (nth i (tsub t) 0%float) /\ ffinite (nth i (tsup t) 0%float))) ->
+  ((forall i, (i < tn t)%nat -> (Rabs (FR (nth i (tmain t) 0%float)) <= bpow radix2 300)%R) /\
+   (forall i, (i + 1 < tn t)%nat ->
+      (FR (nth i (tsub t) 0%float) = 0%R \/ (bpow radix2 (-300) <= Rabs (FR (nth i (tsub t) 0%float)))%R) /\
+      (FR (nth i (tsup t) 0%float) = 0%R \/ (bpow radix2 (-300) <= Rabs (FR (nth i (tsup t) 0%float)))%R))) ->
+  (forall i, (i < tn t)%nat ->
+     ((Rabs (FR (nth i (0%float :: tsub t) 0%float)) + Rabs (FR (nth i (tsup t) 0%float))) * (1 + u64)
+      < Rabs (FR (nth i (tmain t) 0%float)) * (1 - u64))%R) ->
+  exists x, tsolve (A := AF) t r = Ok x /\ length x = tn t /\
+    ((forall i, (i < tn t)%nat -> ffinite (nth i x 0%float)) ->
+  forall i, (i < tn t)%nat -> exists da db dc dr : R,
+    (Rabs da <= 3 * u64 * Rabs (FR (nth i (0%float :: tsub t) 0%float)) /\
+     Rabs db <= 5 * u64 * Rabs (FR (nth i (tmain t) 0%float)) + 9 * u64 * Rabs (FR (nth i (0%float :: tsub t) 0%float)) /\
+     Rabs dc <= 5 * u64 * Rabs (FR (nth i (tsup t) 0%float)) /\
+     Rabs dr <= eta64 * (1 + 11 * Rabs (FR (nth i (tmain t) 0%float))) /\
+     (FR (nth i (0%float :: tsub t) 0%float) + da) * FR (nth i (0%float :: x) 0%float)
+     + (FR (nth i (tmain t) 0%float) + db) * FR (nth i x 0%float)
+     + (FR (nth i (tsup t) 0%float) + dc) * FR (nth (i + 1) x 0%float) = FR (nth i r 0%float) + dr)%R).
+Proof. intros t r. exact (thomas_dominant_float_uf_partial_lemma t r). Qed.
+Check thomas_dominant_float_uf_partial : forall (t : tridiag AF) (r : list pfloat),
+  wfT t -> (1 <= tn t)%nat -> length r = tn t ->
+  ((forall i, (i < tn t)%nat -> ffinite (nth i (tmain t) 0%float)) /\
+   (forall i, (i + 1 < tn t)%nat -> ffinite (nth i (tsub t) 0%float) /\ ffinite (nth i (tsup t) 0%float))) ->
+  ((forall i, (i < tn t)%nat -> (Rabs (FR (nth i (tmain t) 0%float)) <= bpow radix2 300)%R) /\
+   (forall i, (i + 1 < tn t)%nat ->
+      (FR (nth i (tsub t) 0%float) = 0%R \/ (bpow radix2 (-300) <= Rabs (FR (nth i (tsub t) 0%float)))%R) /\
+      (FR (nth i (tsup t) 0%float) = 0%R \/ (bpow radix2 (-300) <= Rabs (FR (nth i (tsup t) 0%float)))%R))) ->
+  (forall i, (i < tn t)%nat ->
+     ((Rabs (FR (nth i (0%float :: tsub t) 0%float)) + Rabs (FR (nth i (tsup t) 0%float))) * (1 + u64)
+      < Rabs (FR (nth i (tmain t) 0%float)) * (1 - u64))%R) ->
+  exists x, tsolve (A := AF) t r = Ok x /\ length x = tn t /\
+    ((forall i, (i < tn t)%nat -> ffinite (nth i x 0%float)) ->
+  forall i, (i < tn t)%nat -> exists da db dc dr : R,
+    (Rabs da <= 3 * u64 * Rabs (FR (nth i (0%float :: tsub t) 0%float)) /\
+     Rabs db <= 5 * u64 * Rabs (FR (nth i (tmain t) 0%float)) + 9 * u64 * Rabs (FR (nth i (0%float :: tsub t) 0%float)) /\
+     Rabs dc <= 5 * u64 * Rabs (FR (nth i (tsup t) 0%float)) /\
+     Rabs dr <= eta64 * (1 + 11 * Rabs (FR (nth i (tmain t) 0%float))) /\
+     (FR (nth i (0%float :: tsub t) 0%float) + da) * FR (nth i (0%float :: x) 0%float)
+     + (FR (nth i (tmain t) 0%float) + db) * FR (nth i x 0%float)
+     + (FR (nth i (tsup t) 0%float) + dc) * FR (nth (i + 1) x 0%float) = FR (nth i r 0%float) + dr)%R).
+Print Assumptions thomas_dominant_float_uf_partial.
+Example thomas_dominant_float_uf_partial_nonvacuous :
+  let t := exT_t in let r := exU_r in let x := exU_x in
+  wfT t /\ (1 <= tn t)%nat /\ length r = tn t /\
+  ((forall i, (i < tn t)%nat -> ffinite (nth i (tmain t) 0%float)) /\
+   (forall i, (i + 1 < tn t)%nat -> ffinite (nth i (tsub t) 0%float) /\ ffinite (nth i (tsup t) 0%float))) /\
+  ((forall i, (i < tn t)%nat -> (Rabs (FR (nth i (tmain t) 0%float)) <= bpow radix2 300)%R) /\
+   (forall i, (i + 1 < tn t)%nat ->
+      (FR (nth i (tsub t) 0%float) = 0%R \/ (bpow radix2 (-300) <= Rabs (FR (nth i (tsub t) 0%float)))%R) /\
+      (FR (nth i (tsup t) 0%float) = 0%R \/ (bpow radix2 (-300) <= Rabs (FR (nth i (tsup t) 0%float)))%R))) /\
+  (forall i, (i < tn t)%nat ->
+     ((Rabs (FR (nth i (0%float :: tsub t) 0%float)) + Rabs (FR (nth i (tsup t) 0%float))) * (1 + u64)
+      < Rabs (FR (nth i (tmain t) 0%float)) * (1 - u64))%R) /\
+  tsolve (A := AF) t r = Ok x /\
+  (forall i, (i < tn t)%nat -> ffinite (nth i x 0%float)).
+Proof.
+  cbv zeta. destruct exT_conditions as (W & Hn & _). destruct exT_data as (HF & HS & D).
+  split; [exact W|]. split; [exact Hn|]. split; [reflexivity|]. split; [exact HF|]. split; [exact HS|]. split; [exact D|].
+  split; [exact exU_solve|exact exU_finite].
+Qed.
+
+(* HYPOTHESES ON THE DATA ONLY, every size n: entries finite, 2^-300 <= |main_i| <= 2^300, off-diagonal entries zero or >= 2^-300,
+   |r_i| <= 2^300, dominance by the factor 2.  Then solve answers, every x_i is finite (no intermediate overflows: |y_k| <= 2^603,
+   |x_k| <= 2^605, shown by induction along the two sweeps), and x is backward stable up to 2^-1075 (1 + 11|b_i|) per row. *)
+Theorem thomas_dominant_float : forall (t : tridiag AF) (r : list pfloat),
+  wfT t -> (1 <= tn t)%nat -> length r = tn t ->
+  ((forall i, (i < tn t)%nat -> ffinite (nth i (tmain t) 0%float)) /\
+   (forall i, (i + 1 < tn t)%nat -> ffinite (nth i (tsub t) 0%float) /\ ffinite (nth i (tsup t) 0%float))) ->
+  ((forall i, (i < tn t)%nat -> (Rabs (FR (nth i (tmain t) 0%float)) <= bpow radix2 300)%R) /\
+   (forall i, (i + 1 < tn t)%nat ->
+      (FR (nth i (tsub t) 0%float) = 0%R \/ (bpow radix2 (-300) <= Rabs (FR (nth i (tsub t) 0%float)))%R) /\
+      (FR (nth i (tsup t) 0%float) = 0%R \/ (bpow radix2 (-300) <= Rabs (FR (nth i (tsup t) 0%float)))%R))) ->
+  (forall i, (i < tn t)%nat -> (bpow radix2 (-300) <= Rabs (FR (nth i (tmain t) 0%float)))%R) ->
+  (forall i, (i < tn t)%nat ->
+     (2 * (Rabs (FR (nth i (0%float :: tsub t) 0%float)) + Rabs (FR (nth i (tsup t) 0%float)))
+      <= Rabs (FR (nth i (tmain t) 0%float)))%R) ->
+  (forall i, (i < tn t)%nat -> ffinite (nth i r 0%float) /\ (Rabs (FR (nth i r 0%float)) <= bpow radix2 300)%R) ->
+  exists x, tsolve (A := AF) t r = Ok x /\ length x = tn t /\
+    (forall i, (i < tn t)%nat -> ffinite (nth i x 0%float)) /\
+  forall i, (i < tn t)%nat -> exists da db dc dr : R,
+    (Rabs da <= 3 * u64 * Rabs (FR (nth i (0%float :: tsub t) 0%float)) /\
+     Rabs db <= 5 * u64 * Rabs (FR (nth i (tmain t) 0%float)) + 9 * u64 * Rabs (FR (nth i (0%float :: tsub t) 0%float)) /\
+     Rabs dc <= 5 * u64 * Rabs (FR (nth i (tsup t) 0%float)) /\
+     Rabs dr <= eta64 * (1 + 11 * Rabs (FR (nth i (tmain t) 0%float))) /\
+     (FR (nth i (0%float :: tsub t) 0%float) + da) * FR (nth i (0%float :: x) 0%float)
+     + (FR (nth i (tmain t) 0%float) + db) * FR (nth i x 0%float)
+     + (FR (nth i (tsup t) 0%float) + dc) * FR (nth (i + 1) x 0%float) = FR (nth i r 0%float) + dr)%R.
+Proof. intros t r W Hn Hr HF HS Bl SD Fr. exact (thomas_dominant_float_lemma t Hn HF HS Bl SD r W Hr Fr). Qed.
+Check thomas_dominant_float : forall (t : tridiag AF) (r : list pfloat),
+  wfT t -> (1 <= tn t)%nat -> length r = tn t ->
+  ((forall i, (i < tn t)%nat -> ffinite (nth i (tmain t) 0%float)) /\
+   (forall i, (i + 1 < tn t)%nat -> ffinite (nth i (tsub t) 0%float) /\ ffinite (nth i (tsup t) 0%float))) ->
+  ((forall i, (i < tn t)%nat -> (Rabs (FR (nth i (tmain t) 0%float)) <= bpow radix2 300)%R) /\
+   (forall i, (i + 1 < tn t)%nat ->
+      (FR (nth i (tsub t) 0%float) = 0%R \/ (bpow radix2 (-300) <= Rabs (FR (nth i (tsub t) 0%float)))%R) /\
+      (FR (nth i (tsup t) 0%float) = 0%R \/ (bpow radix2 (-300) <= Rabs (FR (nth i (tsup t) 0%float)))%R))) ->
+  (forall i, (i < tn t)%nat -> (bpow radix2 (-300) <= Rabs (FR (nth i (tmain t) 0%float)))%R) ->
+  (forall i, (i < tn t)%nat ->
+     (2 * (Rabs (FR (nth i (0%float :: tsub t) 0%float)) + Rabs (FR (nth i (tsup t) 0%float)))
+      <= Rabs (FR (nth i (tmain t) 0%float)))%R) ->
+  (forall i, (i < tn t)%nat -> ffinite (nth i r 0%float) /\ (Rabs (FR (nth i r 0%float)) <= bpow radix2 300)%R) ->
+  exists x, tsolve (A := AF) t r = Ok x /\ length x = tn t /\
+    (forall i, (i < tn t)%nat -> ffinite (nth i x 0%float)) /\
+  forall i, (i < tn t)%nat -> exists da db dc dr : R,
+    (Rabs da <= 3 * u64 * Rabs (FR (nth i (0%float :: tsub t) 0%float)) /\
+     Rabs db <= 5 * u64 * Rabs (FR (nth i (tmain t) 0%float)) + 9 * u64 * Rabs (FR (nth i (0%float :: tsub t) 0%float)) /\
+     Rabs dc <= 5 * u64 * Rabs (FR (nth i (tsup t) 0%float)) /\
+     Rabs dr <= eta64 * (1 + 11 * Rabs (FR (nth i (tmain t) 0%float))) /\
+     (FR (nth i (0%float :: tsub t) 0%float) + da) * FR (nth i (0%float :: x) 0%float)
+     + (FR (nth i (tmain t) 0%float) + db) * FR (nth i x 0%float)
+     + (FR (nth i (tsup t) 0%float) + dc) * FR (nth (i + 1) x 0%float) = FR (nth i r 0%float) + dr)%R.
+Print Assumptions thomas_dominant_float.
+(* met by the matrix above with the UNDERFLOWING right-hand side r = [2^-1060; 0; 0] *)
+Example thomas_dominant_float_nonvacuous :
+  let t := exT_t in let r := exU_r in
+  wfT t /\ (1 <= tn t)%nat /\ length r = tn t /\
+  ((forall i, (i < tn t)%nat -> ffinite (nth i (tmain t) 0%float)) /\
+   (forall i, (i + 1 < tn t)%nat -> ffinite (nth i (tsub t) 0%float) /\ ffinite (nth i (tsup t) 0%float))) /\
+  ((forall i, (i < tn t)%nat -> (Rabs (FR (nth i (tmain t) 0%float)) <= bpow radix2 300)%R) /\
+   (forall i, (i + 1 < tn t)%nat ->
+      (FR (nth i (tsub t) 0%float) = 0%R \/ (bpow radix2 (-300) <= Rabs (FR (nth i (tsub t) 0%float)))%R) /\
+      (FR (nth i (tsup t) 0%float) = 0%R \/ (bpow radix2 (-300) <= Rabs (FR (nth i (tsup t) 0%float)))%R))) /\
+  (forall i, (i < tn t)%nat -> (bpow radix2 (-300) <= Rabs (FR (nth i (tmain t) 0%float)))%R) /\
+  (forall i, (i < tn t)%nat ->
+     (2 * (Rabs (FR (nth i (0%float :: tsub t) 0%float)) + Rabs (FR (nth i (tsup t) 0%float)))
+      <= Rabs (FR (nth i (tmain t) 0%float)))%R) /\
+  (forall i, (i < tn t)%nat -> ffinite (nth i r 0%float) /\ (Rabs (FR (nth i r 0%float)) <= bpow radix2 300)%R) /\
+  ~ no_underflow (FR (nth 0 (tsub t) 0%float) * FR (ty t r 0))%R.
+Proof.
+  cbv zeta. destruct exT_conditions as (W & Hn & _). destruct exT_data as (HF & HS & _).
+  destruct exT_data_strong as (_ & Bl & SD). destruct exU_underflows as (Fr & U).
+  split; [exact W|]. split; [exact Hn|]. split; [reflexivity|]. split; [exact HF|]. split; [exact HS|]. split; [exact Bl|].
+  split; [exact SD|]. split; [exact Fr|exact U].
+Qed.
+
+(* ... and by a family of EVERY size: tridiag(1, 4, 1) of order n with right-hand side (1, ..., 1); hence solve answers it with
+   finite components at binary64 for every n >= 1 *)
+Example thomas_dominant_float_nonvacuous_all_n : forall n, (1 <= n)%nat ->
+  let t := lapT n in let r := repeat 1%float n in
+  (wfT t /\ (1 <= tn t)%nat /\ length r = tn t /\
+  ((forall i, (i < tn t)%nat -> ffinite (nth i (tmain t) 0%float)) /\
+   (forall i, (i + 1 < tn t)%nat -> ffinite (nth i (tsub t) 0%float) /\ ffinite (nth i (tsup t) 0%float))) /\
+  ((forall i, (i < tn t)%nat -> (Rabs (FR (nth i (tmain t) 0%float)) <= bpow radix2 300)%R) /\
+   (forall i, (i + 1 < tn t)%nat ->
+      (FR (nth i (tsub t) 0%float) = 0%R \/ (bpow radix2 (-300) <= Rabs (FR (nth i (tsub t) 0%float)))%R) /\
+      (FR (nth i (tsup t) 0%float) = 0%R \/ (bpow radix2 (-300) <= Rabs (FR (nth i (tsup t) 0%float)))%R))) /\
+  (forall i, (i < tn t)%nat -> (bpow radix2 (-300) <= Rabs (FR (nth i (tmain t) 0%float)))%R) /\
+  (forall i, (i < tn t)%nat ->
+     (2 * (Rabs (FR (nth i (0%float :: tsub t) 0%float)) + Rabs (FR (nth i (tsup t) 0%float)))
+      <= Rabs (FR (nth i (tmain t) 0%float)))%R) /\
+  (forall i, (i < tn t)%nat -> ffinite (nth i r 0%float) /\ (Rabs (FR (nth i r 0%float)) <= bpow radix2 300)%R)) /\
+  exists x, tsolve (A := AF) t r = Ok x /\ length x = n /\ forall i, (i < n)%nat -> ffinite (nth i x 0%float).
+Proof. intros n Hn. cbv zeta. split; [exact (lapT_hyps n Hn)|exact (lapT_solved n Hn)]. Qed.
+
+(* the same in the form a numerical oracle measures: the residual of the computed solution, row by row; with
+   |a_i| + |b_i| + |c_i| <= ||T||_inf it is at most 14 u ||T||_inf ||x||_inf + 2^-1075 (1 + 11|b_i|), u = 2^-53 = 1.1e-16
+   (driver/c05.py allows 1e-11 (||T|| ||x|| + ||r||), about 6400 times more) *)
+Theorem thomas_dominant_float_residual : forall (t : tridiag AF) (r : list pfloat),
+  wfT t -> (1 <= tn t)%nat -> length r = tn t ->
+  ((forall i, (i < tn t)%nat -> ffinite (nth i (tmain t) 0%float)) /\
+   (forall i, (i + 1 < tn t)%nat -> ffinite (nth i (tsub t) 0%float) /\ ffinite (nth i (tsup t) 0%float))) ->
+  ((forall i, (i < tn t)%nat -> (Rabs (FR (nth i (tmain t) 0%float)) <= bpow radix2 300)%R) /\
+   (forall i, (i + 1 < tn t)%nat ->
+      (FR (nth i (tsub t) 0%float) = 0%R \/ (bpow radix2 (-300) <= Rabs (FR (nth i (tsub t) 0%float)))%R) /\
+      (FR (nth i (tsup t) 0%float) = 0%R \/ (bpow radix2 (-300) <= Rabs (FR (nth i (tsup t) 0%float)))%R))) ->
+  (forall i, (i < tn t)%nat -> (bpow radix2 (-300) <= Rabs (FR (nth i (tmain t) 0%float)))%R) ->
+  (forall i, (i < tn t)%nat ->
+     (2 * (Rabs (FR (nth i (0%float :: tsub t) 0%float)) + Rabs (FR (nth i (tsup t) 0%float)))
+      <= Rabs (FR (nth i (tmain t) 0%float)))%R) ->
+  (forall i, (i < tn t)%nat -> ffinite (nth i r 0%float) /\ (Rabs (FR (nth i r 0%float)) <= bpow radix2 300)%R) ->
+  exists x, tsolve (A := AF) t r = Ok x /\ length x = tn t /\
+    (forall i, (i < tn t)%nat -> ffinite (nth i x 0%float)) /\
+  forall i, (i < tn t)%nat ->
+    (Rabs (FR (nth i r 0%float)
+           - (FR (nth i (0%float :: tsub t) 0%float) * FR (nth i (0%float :: x) 0%float)
+              + FR (nth i (tmain t) 0%float) * FR (nth i x 0%float)
+              + FR (nth i (tsup t) 0%float) * FR (nth (i + 1) x 0%float)))
+     <= u64 * (3 * Rabs (FR (nth i (0%float :: tsub t) 0%float)) * Rabs (FR (nth i (0%float :: x) 0%float))
+               + (5 * Rabs (FR (nth i (tmain t) 0%float)) + 9 * Rabs (FR (nth i (0%float :: tsub t) 0%float)))
+                 * Rabs (FR (nth i x 0%float))
+               + 5 * Rabs (FR (nth i (tsup t) 0%float)) * Rabs (FR (nth (i + 1) x 0%float)))
+        + eta64 * (1 + 11 * Rabs (FR (nth i (tmain t) 0%float))))%R.
+Proof. intros t r. exact (thomas_dominant_float_residual_lemma t r). Qed.
+Check thomas_dominant_float_residual : forall (t : tridiag AF) (r : list pfloat),
+  wfT t -> (1 <= tn t)%nat -> length r = tn t ->
+  ((forall i, (i < tn t)%nat -> ffinite (nth i (tmain t) 0%float)) /\
+   (forall i, (i + 1 < tn t)%nat -> ffinite (nth i (tsub t) 0%float) /\ ffinite (nth i (tsup t) 0%float))) ->
+  ((forall i, (i < tn t)%nat -> (Rabs (FR (nth i (tmain t) 0%float)) <= bpow radix2 300)%R) /\
+   (forall i, (i + 1 < tn t)%nat ->
+      (FR (nth i (tsub t) 0%float) = 0%R \/ (bpow radix2 (-300) <= Rabs (FR (nth i (tsub t) 0%float)))%R) /\
+      (FR (nth i (tsup t) 0%float) = 0%R \/ (bpow radix2 (-300) <= Rabs (FR (nth i (tsup t) 0%float)))%R))) ->
+  (forall i, (i < tn t)%nat -> (bpow radix2 (-300) <= Rabs (FR (nth i (tmain t) 0%float)))%R) ->
+  (forall i, (i < tn t)%nat ->
+     (2 * (Rabs (FR (nth i (0%float :: tsub t) 0%float)) + Rabs (FR (nth i (tsup t) 0%float)))
+      <= Rabs (FR (nth i (tmain t) 0%float)))%R) ->
+  (forall i, (i < tn t)%nat -> ffinite (nth i r 0%float) /\ (Rabs (FR (nth i r 0%float)) <= bpow radix2 300)%R) ->
+  exists x, tsolve (A := AF) t r = Ok x /\ length x = tn t /\
+    (forall i, (i < tn t)%nat -> ffinite (nth i x 0%float)) /\
+  forall i, (i < tn t)%nat ->
+    (Rabs (FR (nth i r 0%float)
+           - (FR (nth i (0%float :: tsub t) 0%float) * FR (nth i (0%float :: x) 0%float)
+              + FR (nth i (tmain t) 0%float) * FR (nth i x 0%float)
+              + FR (nth i (tsup t) 0%float) * FR (nth (i + 1) x 0%float)))
+     <= u64 * (3 * Rabs (FR (nth i (0%float :: tsub t) 0%float)) * Rabs (FR (nth i (0%float :: x) 0%float))
+               + (5 * Rabs (FR (nth i (tmain t) 0%float)) + 9 * Rabs (FR (nth i (0%float :: tsub t) 0%float)))
+                 * Rabs (FR (nth i x 0%float))
+               + 5 * Rabs (FR (nth i (tsup t) 0%float)) * Rabs (FR (nth (i + 1) x 0%float)))
+        + eta64 * (1 + 11 * Rabs (FR (nth i (tmain t) 0%float))))%R.
+Print Assumptions thomas_dominant_float_residual.
+Example thomas_dominant_float_residual_nonvacuous :   (* same instances as thomas_dominant_float_nonvacuous *)
+  let t := exT_t in let r := exU_r in
+  wfT t /\ (1 <= tn t)%nat /\ length r = tn t /\
+  ((forall i, (i < tn t)%nat -> ffinite (nth i (tmain t) 0%float)) /\
+   (forall i, (i + 1 < tn t)%nat -> ffinite (nth i (tsub t) 0%float) /\ ffinite (nth i (tsup t) 0%float))) /\
+  ((forall i, (i < tn t)%nat -> (Rabs (FR (nth i (tmain t) 0%float)) <= bpow radix2 300)%R) /\
+   (forall i, (i + 1 < tn t)%nat ->
+      (FR (nth i (tsub t) 0%float) = 0%R \/ (bpow radix2 (-300) <= Rabs (FR (nth i (tsub t) 0%float)))%R) /\
+      (FR (nth i (tsup t) 0%float) = 0%R \/ (bpow radix2 (-300) <= Rabs (FR (nth i (tsup t) 0%float)))%R))) /\
+  (forall i, (i < tn t)%nat -> (bpow radix2 (-300) <= Rabs (FR (nth i (tmain t) 0%float)))%R) /\
+  (forall i, (i < tn t)%nat ->
+     (2 * (Rabs (FR (nth i (0%float :: tsub t) 0%float)) + Rabs (FR (nth i (tsup t) 0%float)))
+      <= Rabs (FR (nth i (tmain t) 0%float)))%R) /\
+  (forall i, (i < tn t)%nat -> ffinite (nth i r 0%float) /\ (Rabs (FR (nth i r 0%float)) <= bpow radix2 300)%R).
+Proof.
+  cbv zeta. destruct exT_conditions as (W & Hn & _). destruct exT_data as (HF & HS & _).
+  destruct exT_data_strong as (_ & Bl & SD). destruct exU_underflows as (Fr & _).
+  split; [exact W|]. split; [exact Hn|]. split; [reflexivity|]. split; [exact HF|]. split; [exact HS|]. split; [exact Bl|].
+  split; [exact SD|exact Fr].
+Qed.
+
+(* why the pivots must be finite: sub = [-2^1023], main = [1; 2^1023], sup = [1], r = [1; 1].  beta_1 = 2^1023 + 2^1023 = +inf,
+   y_1 = 2^1023 / inf = 0, and solve answers the FINITE vector [1; 0]; the true solution is close to [1/2; 1/2]. *)
+Example thomas_finite_answer_hides_overflow_example :
+  let t := @mkT AF [(-0x1p1023)%float] [1%float; 0x1p1023%float] [1%float] 2 in
+  tsolve (A := AF) t [1%float; 1%float] = Ok [1%float; 0%float] /\ tbeta t 1 = infinity.
+Proof. exact thomas_finite_answer_hides_overflow. Qed.
